@@ -6,6 +6,7 @@
 #[path = "/repo/blots-wasm/src/lib.rs"]
 mod wasm_driver;
 
+mod c10;
 mod c11;
 mod c12;
 mod c14;
@@ -14,6 +15,7 @@ mod ev;
 mod vgen;
 mod mv;
 mod rng;
+mod syn;
 
 use serde_json::Value as J;
 use std::io::{BufRead, BufWriter, Write};
@@ -68,6 +70,7 @@ fn main() {
                 .iter()
                 .map(|c| match prop {
                     "c12" => c12::replay(c, &ls),
+                    "c10" => c10::replay(c),
                     "c11" => c11::replay(c),
                     "c14" => c14::replay(c),
                     "c15" => c15::replay(c, &ls),
@@ -82,6 +85,7 @@ fn main() {
         ("record", prop) => {
             let out = match prop {
                 "c12" => c12::record(seed, n),
+                "c10" => c10::record(seed, n),
                 "c11" => c11::record(seed, n),
                 "c14" => c14::record(seed, n),
                 "c15" => c15::record(seed, n),
